@@ -37,8 +37,8 @@ func NewRoundRobinLoadBalancer() LoadBalancer {
 }
 
 type roundRobinLoadBalancer struct {
+	index uint64 // First field so that it's 64-bit aligned for atomic access on 32-bit platforms
 	hosts atomic.Value
-	index uint32
 	mu    *sync.Mutex
 }
 
@@ -72,14 +72,14 @@ func (l *roundRobinLoadBalancer) copy() []*Host {
 func (l *roundRobinLoadBalancer) NewQueryPlan() QueryPlan {
 	return &roundRobinQueryPlan{
 		hosts:  l.hosts.Load().([]*Host),
-		offset: atomic.AddUint32(&l.index, 1) - 1,
+		offset: atomic.AddUint64(&l.index, 1) - 1,
 		index:  0,
 	}
 }
 
 type roundRobinQueryPlan struct {
 	hosts  []*Host
-	offset uint32
+	offset uint64
 	index  uint32
 }
 
@@ -88,7 +88,8 @@ func (p *roundRobinQueryPlan) Next() *Host {
 	if p.index >= l {
 		return nil
 	}
-	host := p.hosts[(p.offset+p.index)%l]
+	// The offset is reduced first so that adding the index can't overflow
+	host := p.hosts[(p.offset%uint64(l)+uint64(p.index))%uint64(l)]
 	p.index++
 	return host
 }
